@@ -233,6 +233,7 @@ func runC02(c *Ctx) error {
 		grand := &blockLog{r: r.Fork()}
 		res := runSession(circ, bitsToBig(x), bitsToBig(y), grand, kind.mk(r.Fork()), kind.mk(r.Fork()),
 			frag, r.Fork(), nil, 60*time.Second)
+		c02Live(c, circ, x, y, kind, r.Fork()) // flush-discipline correspondence (c02live.go)
 		xy := append(append([]bool(nil), x...), y...)
 		want := JoinBig(circ, TruthEval(circ, xy))
 		bad := ""
